@@ -3,7 +3,7 @@
    this directory so that model.ml lands here. *)
 Require Extraction.
 Require Import ExtrOcamlBasic.
-From Moss Require Import FlatRun TreeRun Index OpenDir Codec FileFormat Previous Faults Sync Iterator History Refs Crash IteratorIncl TreeInv.
+From Moss Require Import FlatRun TreeRun Index OpenDir Codec FileFormat Previous PrevTree Faults Sync Iterator History Refs Crash IteratorIncl TreeInv.
 From Moss Require Owners OwnersScenarios.
 Extraction Language OCaml.
 Extraction "model.ml" fstep fcheck finit calc_partial_start calc_target_top_level
@@ -12,6 +12,7 @@ Extraction "model.ml" fstep fcheck finit calc_partial_start calc_target_top_leve
   scan_footer_bytes scan_footer_repaired_bytes roundtrip_check Codec.encode Codec.decode
   pageAlignCeil pageAlignFloor pageOffset load_segment persist_segment persist_segment_loc mutate_guard
   h_append h_compact_partial h_compact_full h_revert h_previous h_walk llv sget sort_seg run_round
+  th_round th_previous th_walk th_revert tcurrent tcur_bs ref_tree fn_any_segs
   run_iter run_iter_pre_fix run_spec live_range iter_list sy_step sy_init sy_run check_hist snap_atomic snap_realtime refs_check
   Owners.run_events OwnersScenarios.run_nfiles OwnersScenarios.sc_append_rounds_snapshots OwnersScenarios.sc_heap_iter_snapshot_closed_first
   OwnersScenarios.sc_force_compaction_child OwnersScenarios.sc_partial_compaction_cached
